@@ -25,6 +25,8 @@ func init() {
 				Edits: []Edit{{File: "driver/netconf/driver.go", Old: "capability>)(.*?)(?:</", New: "capability>)\\s*(\\S+)\\s*(?:</"}}},
 			{ID: "C09-has-capability-prefix", Desc: "ServerHasCapability matches by prefix", Rule: "C09/has-capability",
 				Edits: []Edit{{File: "driver/netconf/capabilities.go", Old: "\t\tif serverCapability == s {", New: "\t\tif len(serverCapability) >= len(s) && serverCapability[:len(s)] == s {"}}},
+			{ID: "C09-session-id-int32", Desc: "session-id parsed as a signed 32-bit value", Rule: "C09/session-id-range",
+				Edits: []Edit{{File: "driver/netconf/capabilities.go", Old: "i, err := strconv.Atoi(string(sessionIDMatch[1]))", New: "i, err := strconv.ParseInt(string(sessionIDMatch[1]), 10, 32)"}}},
 			{ID: "C09-pref10-on-11", Desc: "preferred 1.0 accepted when only 1.1 is advertised", Rule: "C09/version-table",
 				Edits: []Edit{{File: "driver/netconf/capabilities.go", Old: "\tcase V1Dot0:\n\t\tif d.ServerHasCapability(v1Dot0Cap) {", New: "\tcase V1Dot0:\n\t\tif d.ServerHasCapability(v1Dot0Cap) || d.ServerHasCapability(v1Dot1Cap) {"}}},
 			{ID: "C09-10-first", Desc: "1.0 preferred over 1.1 when both advertised", Rule: "C09/version-table",
@@ -126,6 +128,7 @@ func runC09(c *Ctx, r *Report) {
 	r.Rule("C09/open-order", "Open: channel open, server capabilities, version, client hello (once), then the reader; every error after the channel opened closes it", 5)
 	r.Rule("C09/capability-capture", "the capability pattern's capture is non-greedy or excludes '<', so adjacent capability elements are never merged whatever the hello layout", 1)
 	r.Rule("C09/has-capability", "ServerHasCapability is list membership by string equality (a longer URN with the base URN as prefix is a different capability)", 1)
+	r.Rule("C09/session-id-range", "the session-id conversion accepts the whole unsigned 32-bit range", 1)
 	r.Rule("C09/hello-required", "a server greeting without <hello> yields ErrNetconfError", 1)
 	r.Rule("C09/framing-follows-selection", "serialize and the response object are given the selected version", 2)
 
@@ -139,6 +142,7 @@ func runC09(c *Ctx, r *Report) {
 	cap10, cap11 := "urn:ietf:params:netconf:base:1.0", "urn:ietf:params:netconf:base:1.1"
 	checkHasCapability(c, r, has)
 	checkCapabilityCapture(c, r)
+	checkSessionIDRange(c, r)
 	cfg := &dtConfig{IsAtomCall: func(call *ssa.Call) bool {
 		sc := call.Call.StaticCallee()
 		if sc == has || (getPat != nil && sc == getPat) {
